@@ -726,6 +726,43 @@ def parse_float_model(it, st, s, name):
                 yield s4, (it.ok(fresh) if good else it.err(err))
 
 
+def M_str_find(reverse):
+    def f(it, ctx, args, st):
+        """str::find / rfind with a concrete pattern (&str or ASCII char): byte index of the first / last occurrence"""
+        s = sval(st, args[0])
+        pat = args[1]
+        c = concrete(pat) if z3.is_expr(pat) else None
+        if c is not None:
+            if c >= 128:
+                raise Unsupported('find with a non-ASCII char')
+            py = bytes([c])
+        else:
+            py = bstr_py(sval(st, pat))
+            if py is None:
+                raise Unsupported('find with a symbolic pattern')
+        K, lp = len(s.bytes), len(py)
+        if lp == 0:
+            yield st, it.some(s.len if reverse else bv(0))
+            return
+        order = list(range(0, K - lp + 1))
+        if reverse:
+            order.reverse()
+
+        def go(st, idx):
+            if idx >= len(order):
+                yield st, it.none
+                return
+            k = order[idx]
+            hit = z3.And(z3.ULE(bv(k + lp), s.len), *[s.bytes[k + j] == py[j] for j in range(lp)])
+            for s2, h in fork_bool(it, st, hit):
+                if h:
+                    yield s2, it.some(bv(k))
+                else:
+                    yield from go(s2, idx + 1)
+        yield from go(st, 0)
+    return f
+
+
 def M_str_split_once_char(it, ctx, args, st):
     """str::split_once(ch) for a concrete ASCII char: the text before and after its first occurrence"""
     s = sval(st, args[0])
@@ -2252,6 +2289,7 @@ MODELS = [
     (r'<' + P + r'(?:result::Result|option::Option)<.*> as ' + P + r'iter::IntoIterator>::into_iter', M_res_into_iter, lambda it, ctx, args, st: isinstance(args[0], Enum) or (isinstance(args[0], Ptr) and isinstance(st.deref_all(args[0]), Enum))),
     (r'<(?:[iu](?:8|16|32|64|128|size)|f64|f32|bool) as ' + P + r'str::FromStr>::from_str', M_from_str_trait),
     (P + r'str::<impl str>::split_once::<char>', M_str_split_once_char),
+    (P + r'str::<impl str>::find::<(?:&str|char)>', M_str_find(False)), (P + r'str::<impl str>::rfind::<(?:&str|char)>', M_str_find(True)),
     (P + r'str::<impl str>::starts_with::<&str>', M_str_starts_with_str), (P + r'str::<impl str>::ends_with::<&str>', M_str_ends_with_str),
     (P + r'slice::<impl \[u8\]>::starts_with', M_str_starts_with_str), (P + r'slice::<impl \[u8\]>::ends_with', M_str_ends_with_str),
     (ITER + r'peekable', M_iter_peekable), (P + r'iter::Peekable::<.*>::peek', M_peekable_peek, is_peekable),
